@@ -7,7 +7,8 @@ type Lexer struct {
 	// current position in input (points to current char)
 	readPosition int
 	// current reading position in input (after current char)
-	ch byte // current char under examination
+	ch  byte // current char under examination
+	eof bool // the input is exhausted (a NUL byte inside the input is not the end)
 }
 
 var singleChar = map[byte]TokenType{
@@ -36,6 +37,7 @@ func NewLexer(input string) *Lexer {
 func (l *Lexer) readChar() {
 	if l.readPosition >= len(l.input) {
 		l.ch = 0
+		l.eof = true
 	} else {
 		l.ch = l.input[l.readPosition]
 	}
@@ -107,6 +109,12 @@ func (l *Lexer) NextToken() Token {
 	case '.':
 		tok = newToken(DOT, l.ch)
 	case 0:
+		if !l.eof {
+			tok = newToken(ILLEGAL, l.ch)
+
+			break
+		}
+
 		tok.Literal = ""
 		tok.Type = EOF
 	default:
